@@ -5,11 +5,11 @@
     F16  change_comp to a component that does not accept the children already attached (e.g. to a load)
     F17  change_comp with unchanged name (`_chk_name` skipped) and a rail that is in use / equals a name
     F18  change_comp that renames (or re-rails) an input of a multi-input component: `pnames` keeps the old name
-    F28  change_comp of a non-mux to a PMux while another PMux exists (the single-mux rule is only in add_comp)
+    F32  change_comp of a non-mux to a PMux while another PMux exists (the single-mux rule is only in add_comp)
     F19  del_comp(x, del_childs=False) where a child of x keeps several inputs: `pnames` keeps x
     F20  del_comp(<rail name>): `_get_index` resolves the rail, the node is removed, `del nodes[name]` raises KeyError
     F21  set_comp_phases(<rail name>): stored under the rail name
-    F29  System(name, source, rail=<source's own name>)  (`SafeInit`)
+    F33  System(name, source, rail=<source's own name>)  (`SafeInit`)
 
   `Safe15` is the part that matters for "a rejected call changes nothing" (C15): F20 only.
 -/
@@ -48,8 +48,8 @@ def SafeF18 (s : Sys π ν) (t : Nat) (x : String) (c : π) (rail : String) : Pr
   ∀ m ∈ s.ids, ∀ e ∈ s.consulted m, s.getIndex e = .ok (some t) →
     (e = x → nameOfC c = x) ∧ (e ≠ x → effRail c rail = e)
 
-/-- F28: no second PMux -/
-def SafeF28 (s : Sys π ν) (t : Nat) (c : π) : Prop :=
+/-- F32: no second PMux -/
+def SafeF32 (s : Sys π ν) (t : Nat) (c : π) : Prop :=
   kindOfC c = .pmux → ∀ p ∈ s.comps, p.1 ≠ t → kindOfC p.2 ≠ .pmux
 
 instance (s : Sys π ν) (t : Nat) (c : π) : Decidable (s.SafeF16 t c) := by unfold SafeF16; infer_instance
@@ -57,11 +57,11 @@ instance (s : Sys π ν) (x : String) (c : π) (r : String) : Decidable (s.SafeF
   unfold SafeF17; infer_instance
 instance (s : Sys π ν) (t : Nat) (x : String) (c : π) (r : String) : Decidable (s.SafeF18 t x c r) := by
   unfold SafeF18; infer_instance
-instance (s : Sys π ν) (t : Nat) (c : π) : Decidable (s.SafeF28 t c) := by unfold SafeF28; infer_instance
+instance (s : Sys π ν) (t : Nat) (c : π) : Decidable (s.SafeF32 t c) := by unfold SafeF32; infer_instance
 
 /-- the conditions on `change_comp(x, comp=c, rail=rail)` where `x` is node `t` -/
 def SafeChangeAt (s : Sys π ν) (t : Nat) (x : String) (c : π) (rail : String) : Prop :=
-  s.SafeF16 t c ∧ s.SafeF17 x c rail ∧ s.SafeF18 t x c rail ∧ s.SafeF28 t c
+  s.SafeF16 t c ∧ s.SafeF17 x c rail ∧ s.SafeF18 t x c rail ∧ s.SafeF32 t c
 
 instance (s : Sys π ν) (t : Nat) (x : String) (c : π) (rail : String) :
     Decidable (s.SafeChangeAt t x c rail) := by unfold SafeChangeAt; infer_instance
@@ -122,12 +122,23 @@ instance : (s : Sys π ν) → (ops : List (Op π ν)) → Decidable (s.SafeHist
     have := instDecidableSafeHist (s.step op).1 ops
     by unfold SafeHist; infer_instance
 
-/-- F29: the constructor does not call `_chk_name` -/
+/-- every call of the history is `Safe15` in the state it is made in -/
+def Safe15Hist (s : Sys π ν) : List (Op π ν) → Prop
+  | [] => True
+  | op :: ops => s.Safe15 op ∧ Safe15Hist (s.step op).1 ops
+
+instance : (s : Sys π ν) → (ops : List (Op π ν)) → Decidable (s.Safe15Hist ops)
+  | _, [] => isTrue trivial
+  | s, op :: ops =>
+    have := instDecidableSafe15Hist (s.step op).1 ops
+    by unfold Safe15Hist; infer_instance
+
+/-- F33: the constructor does not call `_chk_name` -/
 def SafeInit (src : π) (rail : String) : Prop := rail = "" ∨ rail ≠ nameOfC src
 
 instance (src : π) (rail : String) : Decidable (SafeInit src rail) := by unfold SafeInit; infer_instance
 
-/-- F30: `add_comp(parent=[])` raises `IndexError` (`pidx[0]`), not `ValueError` -/
+/-- F34: `add_comp(parent=[])` raises `IndexError` (`pidx[0]`), not `ValueError` -/
 def SafeErr : Op π ν → Prop
   | .addComp (.many []) _ _ _ => False
   | _ => True
@@ -140,7 +151,7 @@ def unsafeWhy (s : Sys π ν) (op : Op π ν) : List String :=
     | none => []
     | some t =>
       (if decide (s.SafeF16 t c) then [] else ["F16"]) ++ (if decide (s.SafeF17 x c r) then [] else ["F17"]) ++
-      (if decide (s.SafeF18 t x c r) then [] else ["F18"]) ++ (if decide (s.SafeF28 t c) then [] else ["F28"])
+      (if decide (s.SafeF18 t x c r) then [] else ["F18"]) ++ (if decide (s.SafeF32 t c) then [] else ["F32"])
   | .delComp x d =>
     (if decide (s.byName x) then [] else ["F20"]) ++
     (if decide (s.SafeDel x d) || !decide (s.byName x) then [] else ["F19"])
